@@ -102,7 +102,7 @@ func judgeC05(env *run.Env, c *c05Case) (v c05Verdict, script string, nontrivial
 	pc := &pairCase{Model: "Linux", Device: c.Device, Files: map[string]string{"router": c.Spoc}}
 	r := runPair(env, pc, false)
 	if isCrash(r) {
-		return v, "", false, "tool-crash(decided by C20)"
+		return c05Verdict{"crash:" + topRepoFrame(r.Stderr) + ":" + panicClass(r.Stderr), "tool died on a valid pair: " + firstLines(r.Stderr, 3)}, "", true, ""
 	}
 	if r.Exit != 0 {
 		return c05Verdict{"rejected", "valid pair rejected: " + firstLines(r.Stderr, 3)}, "", false, ""
